@@ -45,6 +45,16 @@ impl Default for PipeCfg {
 
 impl PipeCfg {
     /// Draw a configuration (chunking modes are schedule, not fault: drawn in every profile).
+    /// Like `draw`, but with room for at least `min` bytes in flight (for protocols that write a
+    /// whole flight before reading, which deadlocks on any transport with smaller buffers).
+    pub fn draw_min_cap(min: usize) -> Self {
+        let mut c = Self::draw();
+        if c.capacity < min {
+            c.capacity = min + choose(3) * min;
+        }
+        c
+    }
+
     pub fn draw() -> Self {
         let ch = |v| match v {
             0 => Chunking::Full,
